@@ -34,7 +34,7 @@ theorem C15_no_id (rules : List Rule) (s : ABuf) (hne : rules ≠ []) (h : ∀ r
 theorem C15_compress_errors (ps : List ParserInst) (rules : List Rule) (pk : ABuf) (d : Dir) (st : Strategy) (e : PyErr)
     (hT : ∀ r ∈ rules, RuleTypeOK r)
     (hc : ∀ pd, packetParse (fuelFor pk) ps pk = .ok pd → ∀ r ∈ rules, Spec.applicable { pd with dir := d } r = true →
-        ∃ o, compress { pd with dir := d } r = .ok o)
+        ∃ o, compressD { pd with dir := d } r (some d) = .ok o)
     (he : managerCompress ps rules pk d st = .error e) :
     packetParse (fuelFor pk) ps pk = .error e ∨ e = .ruleDescriptorMatchError := by
   unfold managerCompress at he
